@@ -19,7 +19,7 @@ import (
 // C14 — receivers hand flow-control credit back so a conforming sender never starves.
 
 type c14Up struct {
-	Kind  string `json:"kind"` // ok, toobig, cl-small, rst-mid, burst-after-error
+	Kind  string `json:"kind"` // ok, toobig, cl-small (body shorter than declared), cl-over (body longer than declared), rst-mid, burst-after-error
 	Size  int    `json:"size"`
 	Chunk int    `json:"chunk"`
 	Pad   int    `json:"pad,omitempty"` // >0: every DATA frame padded with pad-1 octets
@@ -128,6 +128,10 @@ func c14Run(c c14Case) Outcome {
 			list := r.HeaderList()
 			if x.u.Kind == "cl-small" {
 				list = append(list, peer.FieldSpec{F: refhpack.Field{Name: "content-length", Value: fmt.Sprint(x.u.Size + 7)}, R: refhpack.Rep{Kind: 2, NameIdx: true}})
+			}
+			if x.u.Kind == "cl-over" {
+				// declares less than it sends: the body crosses the declared length somewhere
+				list = append(list, peer.FieldSpec{F: refhpack.Field{Name: "content-length", Value: fmt.Sprint(x.u.Size / 2)}, R: refhpack.Rep{Kind: 2, NameIdx: true}})
 			}
 			h.OpenStream(x.id)
 			_ = h.Write(peer.SplitBlock(x.id, h.EncodeBlock(nil, list), nil, false, 0, false, 0, false, 0)[0])
@@ -303,6 +307,9 @@ func c14Run(c c14Case) Outcome {
 	if sentTotal > 2*startConn {
 		cls = append(cls, "over-2-windows")
 	}
+	if len(c.Ups) == 1 && c.Repeat < 0 {
+		cls = append(cls, "mono:"+c.Ups[0].Kind)
+	}
 	return Outcome{NonTrivial: (sentTotal > 2*startConn && errored > 0) || padded, Classes: cls}
 }
 
@@ -311,7 +318,7 @@ func c14Gen(t *rapid.T) c14Case {
 	n := rapid.IntRange(1, 5).Draw(t, "n")
 	total := 0
 	for i := 0; i < n; i++ {
-		u := c14Up{Kind: rapid.SampledFrom([]string{"ok", "ok", "toobig", "cl-small", "rst-mid", "burst-after-error"}).Draw(t, "kind")}
+		u := c14Up{Kind: rapid.SampledFrom([]string{"ok", "ok", "toobig", "cl-small", "cl-over", "rst-mid", "burst-after-error"}).Draw(t, "kind")}
 		u.Chunk = rapid.SampledFrom([]int{1, 100, 1000, 8000, 16000, 16384 - 256}).Draw(t, "chunk")
 		switch u.Kind {
 		case "toobig", "burst-after-error":
@@ -346,6 +353,25 @@ func c14Gen(t *rapid.T) c14Case {
 		// a long case has to reach 9 MiB: keep the number of streams bounded
 		c.Ups[0].Size += 5000
 	}
+	if rapid.IntRange(0, 5).Draw(t, "mono") == 0 {
+		// one kind of failing upload of one or two frames, repeated until 2.2
+		// windows have moved: a per-stream leak is not diluted by healthy traffic
+		u := c14Up{Kind: rapid.SampledFrom([]string{"toobig", "cl-small", "cl-over", "rst-mid", "burst-after-error"}).Draw(t, "monokind")}
+		u.Chunk = rapid.SampledFrom([]int{4000, 16000, 16384 - 256}).Draw(t, "monochunk")
+		u.Size = u.Chunk * rapid.IntRange(1, 2).Draw(t, "monoframes")
+		if u.Kind == "toobig" || u.Kind == "burst-after-error" {
+			c.MaxBody = 1000
+		} else {
+			c.MaxBody = 1 << 20
+		}
+		if u.Kind == "rst-mid" {
+			u.Size = u.Chunk * 3
+		}
+		if rapid.IntRange(0, 2).Draw(t, "monopad") == 0 {
+			u.Pad = rapid.SampledFrom([]int{2, 256}).Draw(t, "monopadlen")
+		}
+		c.Ups, c.Repeat, c.Par = []c14Up{u}, -1, rapid.IntRange(1, 2).Draw(t, "monopar")
+	}
 	return c
 }
 
@@ -369,13 +395,19 @@ type c14Down struct {
 
 type c14CCase struct {
 	Downs  []c14Down `json:"downs"`
-	Repeat int       `json:"repeat"`
+	Repeat int       `json:"repeat"` // <0: long case, repeated until 2.2 connection windows have moved or the abandoned streams can take no more, then an "ok" probe
+	// caller timeout in ms (0 = 150); long cases made only of abandoned downloads use a short one
+	TimeoutMs int `json:"timeout_ms,omitempty"`
 }
 
 const c14CTimeout = 150 * time.Millisecond
 
 func c14CRun(c c14CCase) Outcome {
-	env, err := speer.NewEnv(http2.ClientOpts{PingInterval: time.Hour, MaxResponseTime: c14CTimeout})
+	timeout := c14CTimeout
+	if c.TimeoutMs > 0 {
+		timeout = time.Duration(c.TimeoutMs) * time.Millisecond
+	}
+	env, err := speer.NewEnv(http2.ClientOpts{PingInterval: time.Hour, MaxResponseTime: timeout})
 	if err != nil {
 		return Outcome{Inconcl: "cannot set the client up: " + err.Error()}
 	}
@@ -428,13 +460,17 @@ func c14CRun(c c14CCase) Outcome {
 	abandoned := 0
 	padded := false
 	seq := 0
-	for rep := 0; rep < c.Repeat; rep++ {
-		for _, dn := range c.Downs {
+	connBlocked := false // an abandoned download stopped because the connection window was spent
+	download := func(dn c14Down) *Outcome {
+		{
 			seq++
 			tag := fmt.Sprintf("d%d", seq)
 			call := env.Do(speer.ReqSpec{Tag: tag, Method: "GET", Path: "/" + tag})
 			if ok, d := env.Quiesce(); !ok {
-				return Outcome{Inconcl: "no quiescence after the request: " + d}
+				{
+					o := Outcome{Inconcl: "no quiescence after the request: " + d}
+					return &o
+				}
 			}
 			var id uint32
 			for _, e := range sc.EventsCopy() {
@@ -448,9 +484,15 @@ func c14CRun(c c14CCase) Outcome {
 			}
 			if id == 0 {
 				if call.Finished() && call.Err != nil {
-					return fail("request-failed", "request %s failed before reaching the server: %v (after %d octets downloaded, %d abandoned streams)", tag, call.Err, sentTotal, abandoned)
+					{
+						o := fail("request-failed", "request %s failed before reaching the server: %v (after %d octets downloaded, %d abandoned streams)", tag, call.Err, sentTotal, abandoned)
+						return &o
+					}
 				}
-				return Outcome{Inconcl: "request " + tag + " did not reach the server"}
+				{
+					o := Outcome{Inconcl: "request " + tag + " did not reach the server"}
+					return &o
+				}
 			}
 			absorb()
 			l.stream[id] = l.init
@@ -461,7 +503,10 @@ func c14CRun(c c14CCase) Outcome {
 					time.Sleep(200 * time.Microsecond)
 				}
 				if !call.Finished() {
-					return Outcome{Inconcl: "the caller did not time out"}
+					{
+						o := Outcome{Inconcl: "the caller did not time out"}
+						return &o
+					}
 				}
 				abandoned++
 			}
@@ -493,12 +538,18 @@ func c14CRun(c c14CCase) Outcome {
 				for cost > 0 && (l.conn < cost || l.stream[id] < cost) {
 					// blocked: let the receiver catch up and look for credit
 					if ok, d := env.Quiesce(); !ok {
-						return Outcome{Inconcl: "no quiescence while blocked: " + d}
+						{
+							o := Outcome{Inconcl: "no quiescence while blocked: " + d}
+							return &o
+						}
 					}
 					before := l.conn + l.stream[id]
 					absorb()
 					if l.bad != "" {
-						return fail("bad-window-update", "%s", l.bad)
+						{
+							o := fail("bad-window-update", "%s", l.bad)
+							return &o
+						}
 					}
 					rst := false
 					for _, e := range sc.EventsCopy() {
@@ -508,12 +559,18 @@ func c14CRun(c c14CCase) Outcome {
 					}
 					if rst && dn.Kind == "abandoned" {
 						// we have now seen the client's RST_STREAM: stop sending on this stream
+						if l.conn < cost {
+							connBlocked = true
+						}
 						rest = nil
 						cost = 0
 						break
 					}
 					if l.conn+l.stream[id] == before && (l.conn < cost || l.stream[id] < cost) {
-						return fail("starved", "download %s on stream %d (kind %s) needs %d octets of window: stream window %d, connection window %d; the client is quiescent after %d octets (%d streams abandoned by their callers) and has returned %d octets of connection credit in total (initial connection window %d)", tag, id, dn.Kind, cost, l.stream[id], l.conn, sentTotal, abandoned, l.credits, startConn)
+						{
+							o := fail("starved", "download %s on stream %d (kind %s) needs %d octets of window: stream window %d, connection window %d; the client is quiescent after %d octets (%d streams abandoned by their callers) and has returned %d octets of connection credit in total (initial connection window %d)", tag, id, dn.Kind, cost, l.stream[id], l.conn, sentTotal, abandoned, l.credits, startConn)
+							return &o
+						}
 					}
 				}
 				if rest == nil {
@@ -527,20 +584,54 @@ func c14CRun(c c14CCase) Outcome {
 			}
 			sc.StreamDone(id)
 			if ok, d := env.Quiesce(); !ok {
-				return Outcome{Inconcl: "no quiescence after the download: " + d}
+				{
+					o := Outcome{Inconcl: "no quiescence after the download: " + d}
+					return &o
+				}
 			}
 			absorb()
 			if l.bad != "" {
-				return fail("bad-window-update", "%s", l.bad)
+				{
+					o := fail("bad-window-update", "%s", l.bad)
+					return &o
+				}
 			}
 			if dn.Kind == "ok" {
 				if call.Finished() && call.Err != nil && strings.Contains(call.Err.Error(), "timed out") {
-					return Outcome{Inconcl: "a download that was not meant to be abandoned hit MaxResponseTime (machine too slow for the 150 ms timer)"}
+					{
+						o := Outcome{Inconcl: "a download that was not meant to be abandoned hit MaxResponseTime (machine too slow for the timer)"}
+						return &o
+					}
 				}
 				if !call.Finished() || call.Err != nil || string(call.Body) != string(peer.BodyFor(tag, dn.Size)) {
-					return fail("download", "download %s: finished=%v err=%v body=%d bytes (want %d)", tag, call.Finished(), call.Err, len(call.Body), dn.Size)
+					{
+						o := fail("download", "download %s: finished=%v err=%v body=%d bytes (want %d)", tag, call.Finished(), call.Err, len(call.Body), dn.Size)
+						return &o
+					}
 				}
 			}
+		}
+		return nil
+	}
+	if c.Repeat >= 0 {
+		for rep := 0; rep < c.Repeat; rep++ {
+			for _, dn := range c.Downs {
+				if o := download(dn); o != nil {
+					return *o
+				}
+			}
+		}
+	} else {
+		for rep := 0; rep < 120 && sentTotal < startConn*22/10 && !connBlocked; rep++ {
+			for _, dn := range c.Downs {
+				if o := download(dn); o != nil {
+					return *o
+				}
+			}
+		}
+		// the connection must still carry a small response
+		if o := download(c14Down{Kind: "ok", Size: 1000, Chunk: 1000}); o != nil {
+			return *o
 		}
 	}
 	cls := []string{}
@@ -552,6 +643,9 @@ func c14CRun(c c14CCase) Outcome {
 	}
 	if sentTotal > 2*startConn {
 		cls = append(cls, "over-2-windows")
+	}
+	if c.Repeat < 0 {
+		cls = append(cls, "long-abandoned")
 	}
 	return Outcome{NonTrivial: (sentTotal > 2*startConn && abandoned > 0) || padded, Classes: cls}
 }
@@ -577,6 +671,19 @@ func c14CGen(t *rapid.T) c14CCase {
 	c.Repeat = rapid.SampledFrom([]int{1, 1, 2, 4, 8}).Draw(t, "repeat")
 	for c.Repeat > 1 && total*c.Repeat > 6<<20 {
 		c.Repeat /= 2
+	}
+	if rapid.IntRange(0, 3).Draw(t, "mono") == 0 {
+		// only abandoned downloads, frames mostly padding or mostly data, until
+		// 2.2 connection windows have moved; then a probe
+		d := c14Down{Kind: "abandoned"}
+		d.Chunk = rapid.SampledFrom([]int{1, 100, 4000, 16000}).Draw(t, "monochunk")
+		d.Pad = rapid.SampledFrom([]int{0, 2, 256, 256}).Draw(t, "monopad")
+		d.Size = d.Chunk * rapid.SampledFrom([]int{40, 400, 4000}).Draw(t, "monoframes")
+		if d.Size > 2<<20 {
+			d.Size = 2 << 20
+		}
+		d.Empty = d.Pad > 0 && rapid.Bool().Draw(t, "monoempty")
+		c.Downs, c.Repeat, c.TimeoutMs = []c14Down{d}, -1, 30
 	}
 	return c
 }
